@@ -23,6 +23,25 @@ package schemas
 //@   props C04 C11
 //@   every-iteration-calls mergo.Merge
 
+// The merge builds a new Type and leaves the branches alone: a branch is often a
+// definition that other parts of the schema reference too, so writing through it
+// would change the code generated for them. mergo is external; assumed: Merge may
+// write to anything reachable from its destination through pointers and maps.
+//@ func MergeTypes@pure
+//@   props C11 C12
+//@   shape types = types(a:object;b:object) | types(a:object) | types(a:object;b:object;c:object)
+//@   assigns nothing
+//@   ensures [C11] result-or-error: (result1 == nil) != (result0 == nil)
+//@   ensures [C11] result-is-new: result1 == nil ==> fresh(result0)
+
+// Only type lists are exempt from merging (their combination is decided by the
+// caller); every other field, nested sub-schemas included, is merged.
+//@ func (typeListTransformer).Transformer
+//@   props C11
+//@   shape typ = rtype(schemas.TypeList) | rtype(*schemas.Type) | rtype(schemas.Type) | rtype(string) | rtype(*schemas.TypeList)
+//@   assigns nothing
+//@   ensures [C11] only-type-lists-are-kept: (result != nil) <==> rtype_name(typ) == "github.com/atombender/go-jsonschema/pkg/schemas.TypeList"
+
 // Type lists are equal iff the receiver is non-nil, the lengths agree and the
 // entries agree position by position (used to decide whether anyOf/allOf
 // branches have one common type).
